@@ -154,6 +154,7 @@ def run(chk: Check) -> None:
     run_refcount_edge_sets(chk, ix)
     run_hooks_outside_init(chk, ix)
     run_spill_owns_what_it_stores(chk, ix)
+    run_unborrow_before_failing_ops(chk, ix)
     base = ix.cls(OP)
     ops = [c for c in base.all_subclasses() if c.module.name == "mypyc.ir.ops" and "sources" in c.methods and not any(isinstance(n, ast.Raise) for n in c.methods["sources"].node.body)]
     if len(ops) < 35:
@@ -1213,3 +1214,41 @@ def run_spill_owns_what_it_stores(chk: Check, ix) -> None:
                 r23.violation(key, f.loc(c), f"`{norm(c)[:80]}` stores `{norm(src)}` without giving the environment a reference when the value is borrowed (no `IncRef({norm(src)})` under `{norm(src)}.is_borrowed` before it in the block): a borrowed value live across an await (a bytes literal argument evaluated before `await`) is released by the environment once per run although nobody took a reference for it")
     if n < 2:
         raise AnalysisError(f"spill.py: {n} SetAttr constructions found (expected the nulling store and the spill store)")
+
+
+EMITS_FALLIBLE = {"assign", "accept", "call_c", "primitive_op", "py_call", "gen_method_call", "coerce", "py_get_attr", "py_set_attr", "load_module_attr_by_fullname"}
+
+
+def run_unborrow_before_failing_ops(chk: Check, ix) -> None:
+    """R06.24: the components of a stolen aggregate are all made managed before code that can raise is emitted."""
+    r24 = chk.rule("R06.24", "irbuild splits an owned tuple without reference-count traffic by borrowing its items, consuming the tuple (`keep_alive(..., steal=True)`) and turning each item into a managed value with Unborrow (ops.Unborrow's docstring: all unborrows directly after the steal). Until an item is unborrowed nobody owns it, so in a function that steals an aggregate no Unborrow is constructed inside a loop whose body also emits an op that can raise (builder.assign to an index/attribute target, accept, call_c, ...): an exception raised for item k leaves items k+1.. unreleased", floor=2)
+    n = 0
+    for mname in ("mypyc.irbuild.statement", "mypyc.irbuild.vec", "mypyc.irbuild.ll_builder", "mypyc.irbuild.builder", "mypyc.irbuild.expression", "mypyc.irbuild.for_helpers", "mypyc.irbuild.specialize"):
+        m = ix.modules.get(mname)
+        if m is None:
+            continue
+        for f in m.functions.values():
+            steals = [c for c in ast.walk(f.node) if isinstance(c, ast.Call) and call_name(c) == "keep_alive" and any(k.arg == "steal" and isinstance(k.value, ast.Constant) and k.value.value is True for k in c.keywords)]
+            unb = [c for c in ast.walk(f.node) if isinstance(c, ast.Call) and call_name(c) == "Unborrow"]
+            if not steals or not unb:
+                continue
+            n += 1
+            par = f.module.parents()
+            key = f"{f.name}: every item of the stolen aggregate is unborrowed before an op that can raise is emitted"
+            bad = None
+            for u in unb:
+                p = u
+                while p is not f.node:
+                    p = par[p]
+                    if isinstance(p, (ast.For, ast.While)):
+                        fallible = sorted({call_name(c) for st in p.body for c in ast.walk(st) if isinstance(c, ast.Call) and call_name(c) in EMITS_FALLIBLE})
+                        if fallible:
+                            bad = (u, p, fallible)
+                        break
+            if bad is None:
+                r24.ok(key, f.loc(steals[0]))
+            else:
+                u, loop, fallible = bad
+                r24.violation(key, f.loc(u), f"`{norm(u)}` is constructed in the loop at line {loop.lineno}, whose body also emits {fallible}: when the store for one target raises (`lst[5], lst[0] = pair()` with a short list) the items of the later targets are still borrowed values of a tuple that was already consumed, and are never released")
+    if n < 2:
+        raise AnalysisError(f"irbuild: {n} functions that steal an aggregate and unborrow its items found (expected transform_assignment_stmt and the nested-vec pop helper)")
